@@ -103,7 +103,10 @@ def gen_hdr(rng, adversarial=True):
             body = [rng.choice([66, 67, 2, 0, 9]) for _ in range(sl)]
             if len(ex) + 4 + sl > budget - 10:
                 break
-            ex += [rng.choice([65, 66, 88]), rng.choice([67, 68, 89]), sl & 255, sl >> 8] + body
+            si1, si2 = rng.choice([65, 66, 88]), rng.choice([67, 68, 89])
+            if (si1, si2, sl) == (66, 67, 2):
+                si2 = 68   # a second BC subfield of length 2 would make the file ambiguous: not a legal setting
+            ex += [si1, si2, sl & 255, sl >> 8] + body
         # never a second BC subfield with SLEN 2 (would be a different, legal but ambiguous, file)
         h['extra'] = ex
     return h
@@ -321,7 +324,7 @@ def run_property(res, rng, pid, cases, nontrivial, bucket, trusted, assume, rule
         terms.append((c, o, coq_term(c, o, rng)))
     # big cases cost most: spread them over the shards
     terms.sort(key=lambda t: -total_len(t[0]['ops']))
-    nsh = 6
+    nsh = 10
     order = []
     for i in range(nsh):
         order.extend(terms[i::nsh])
